@@ -80,12 +80,23 @@ FAMILIES = {
     "nested-paren-mixed-ops": (2, lambda n: wrap(["x = " + "".join(["(a * ", "(a .lt. ", "(a // ", "(a ** ", "(.not. "][i % 5] for i in range(n)) + "b" + ")" * n])),
     "nested-paren-defined-op": (2, lambda n: wrap(["x = " + "(a .myop. " * n + "b" + ")" * n])),
     "if-condition-nested-logical": (2, lambda n: wrap(["if (" + "(a .and. " * n + "b" + ")" * n + ") x = 1"])),
+    # constructs with several parts: the nested construct sits in the FIRST part
+    # and later parts follow (a matcher that finds out late that it chose the wrong
+    # form re-parses the first part), or in a later part
+    "nested-if-then-with-else": (2, lambda n: nest(lambda i: "if (a > %d) then" % i, lambda i: "else\nb = %d\nend if" % i, n)),
+    "nested-if-then-with-elseif": (2, lambda n: nest(lambda i: "if (a > %d) then" % i, lambda i: "else if (a < -%d) then\nb = %d\nelse\nb = 0\nend if" % (i, i), n)),
+    "nested-if-in-else": (2, lambda n: nest(lambda i: "if (a > %d) then\nb = %d\nelse" % (i, i), lambda i: "end if", n)),
+    "nested-named-if-with-else": (2, lambda n: nest(lambda i: "c%d: if (a > %d) then" % (i, i), lambda i: "else c%d\nb = %d\nend if c%d" % (i, i, i), n)),
+    "nested-where-with-elsewhere": (2, lambda n: nest(lambda i: "where (w > %d)" % i, lambda i: "elsewhere\nw = %d\nend where" % i, n, body="w = 1")),
+    "nested-select-first-case-of-three": (2, lambda n: nest(lambda i: "select case (k%d)\ncase (%d)" % (i, i), lambda i: "case (-%d)\nb = %d\ncase default\nb = 0\nend select" % (i, i), n)),
+    "nested-select-last-case": (2, lambda n: nest(lambda i: "select case (k%d)\ncase (%d)\nb = %d\ncase default" % (i, i, i), lambda i: "end select", n)),
+    "nested-do-with-trailing-statements": (2, lambda n: nest(lambda i: "do i%d = 1, 2\nb = %d" % (i, i), lambda i: "b = -%d\nend do" % i, n)),
     "nested-if-stmt-in-do": (2, lambda n: nest(lambda i: "do i%d = 1, 2\nif (a > %d) a = %d" % (i, i, i), lambda i: "end do", n)),
 }
 F2008_ONLY = {"nested-block", "nested-mixed"}
 # families measured under BOTH standards (the two parsers use different rule
 # classes for DO constructs, so an optimisation can be lost in one of them)
-BOTH_STDS = {f for f in FAMILIES if "do" in f or "loops" in f or f in ("nested-if", "repeated-assignments", "nested-references", "flat-sum")}
+BOTH_STDS = {f for f in FAMILIES if "do" in f or "loops" in f or f.startswith("nested-if") or f in ("nested-if", "repeated-assignments", "nested-references", "flat-sum")}
 
 
 class Cap(BaseException):
